@@ -27,8 +27,10 @@ KIND = {
     "B": lambda i: rs("sq/b", [["bytes", "raw"], ["float", "f"]], ["b'b%d'" % i, "%d.5" % i]),
     "A+": lambda i: rs("sq/a", [["string", "s"], ["varint", "n"], ["string", "extra"]], ["'p%d'" % i, str(i), "'x%d'" % i]),
     "A-": lambda i: rs("sq/a", [["string", "s"]], ["'m%d'" % i]),
+    # same name, same NUMBER of fields as A, one of them new
+    "A~": lambda i: rs("sq/a", [["string", "s"], ["string", "owner"]], ["'t%d'" % i, "'o%d'" % i]),
 }
-EVENTS = ["A", "B", "A+", "A-", "flush", "close"]
+EVENTS = ["A", "B", "A+", "A-", "A~", "flush", "close"]
 # "bad": an A record whose integer does not fit SQLite's 64 bits: write() raises, the caller carries on
 BAD = lambda i: rs("sq/a", [["string", "s"], ["varint", "n"]], ["'bad%d'" % i, "2**63"])  # noqa: E731
 BATCHES = [1, 2, 3, 1000]
@@ -407,8 +409,10 @@ def run_names(case):
 
 def cases(tier, seed):
     depth = 6 if tier == "thorough" else 5
+    core = [e for e in EVENTS if e != "A~"]
     for k in range(1, depth + 1):
-        for hist in itertools.product(EVENTS, repeat=k):
+        # the full alphabet one level shallower than the core alphabet
+        for hist in itertools.product(EVENTS if k < depth else core, repeat=k):
             if "close" in hist[:-1]:
                 continue  # nothing happens after close
             yield {"kind": "hist", "hist": list(hist)}
